@@ -447,6 +447,10 @@ func check(id, tier string) int {
 		}
 	}
 	distinct := len(sigs)
+	var raceInfo map[string]any
+	if id == "C08" {
+		raceInfo = racePass(tier, viols)
+	}
 	// classify violations
 	findings := loadFindings()
 	var keys []string
@@ -520,6 +524,9 @@ func check(id, tier string) int {
 	for k, v := range m.Extra {
 		cov[k] = v
 	}
+	if raceInfo != nil {
+		cov["race_monitor"] = raceInfo
+	}
 	if len(m.Samples) == 0 {
 		cov["samples"] = []any{"(no sample recorded)"}
 	}
@@ -554,3 +561,66 @@ func trunc(s string) string {
 }
 
 var _ = io.Discard
+
+// racePass is C08's auxiliary monitor: the same driver bodies, free-running on
+// real goroutines, built with -race against the UN-instrumented sources.
+// A race report is a definitive violation; silence is sampling evidence only.
+func racePass(tier string, viols map[string]*FoundViolation) map[string]any {
+	info := map[string]any{"kind": "free-running race detector pass (auxiliary, not exhaustive)"}
+	bin := filepath.Join(verifDir, ".work", fmt.Sprintf("racepass.%d", os.Getpid()))
+	defer os.Remove(bin)
+	env := append(goEnvCgo(), "CGO_ENABLED=1")
+	out, err := run(env, verifDir, "go", "build", "-race", "-o", bin, "./racepass")
+	if err != nil {
+		info["built"] = false
+		info["note"] = "race build unavailable: " + firstLines(out, 3)
+		return info
+	}
+	info["built"] = true
+	iters := "300"
+	if tier == "thorough" {
+		iters = "3000"
+	}
+	cmd := exec.Command(bin, "-iters", iters, "-threads", "8")
+	cmd.Env = append(os.Environ(), "GORACE=halt_on_error=0")
+	var buf bytes.Buffer
+	cmd.Stdout, cmd.Stderr = &buf, &buf
+	cmd.Run()
+	text := buf.String()
+	n := strings.Count(text, "WARNING: DATA RACE")
+	info["iterations_per_thread"] = iters
+	info["goroutines_per_driver"] = 8
+	info["races_reported"] = n
+	if n > 0 {
+		// key: the first two zog frames of the first report
+		var frames []string
+		for _, line := range strings.Split(text, "\n") {
+			l := strings.TrimSpace(line)
+			if strings.HasPrefix(l, "github.com/Oudwins/zog") && len(frames) < 2 {
+				if i := strings.Index(l, "("); i > 0 {
+					// keep the function name incl. receiver
+				}
+				frames = append(frames, strings.TrimSuffix(strings.TrimPrefix(l, "github.com/Oudwins/zog"), "()"))
+			}
+		}
+		os.MkdirAll(filepath.Join(verifDir, "replays"), 0o755)
+		rp := filepath.Join(verifDir, "replays", "C08-race-report.txt")
+		os.WriteFile(rp, []byte(text), 0o644)
+		fv := &FoundViolation{Item: "racepass", Count: int64(n)}
+		fv.V.Key = "C08:race:" + strings.Join(frames, "|")
+		fv.V.What = "the Go race detector reports a data race between goroutines using one schema (free-running pass over the C08 driver bodies)"
+		fv.V.Expected = "no data race"
+		fv.V.Observed = firstLines(text, 40)
+		fv.Notes = []string{"full report: " + rp, "reproduce: cd /verif && go build -race -o /tmp/racepass ./racepass && /tmp/racepass"}
+		viols[fv.V.Key] = fv
+	}
+	return info
+}
+
+func firstLines(s string, n int) string {
+	l := strings.Split(s, "\n")
+	if len(l) > n {
+		l = l[:n]
+	}
+	return strings.Join(l, "\n")
+}
